@@ -2,7 +2,7 @@
    element's own table in addition to the planned ones; it returns exactly the stored records whose data ID is one of the
    rows of the specification over the element's minimal group. *)
 From Coq Require Import String List Bool ZArith NArith Lia.
-From V Require Import Model.Universe Model.Group Model.Join
+From V Require Import Model.Universe Model.Group Gen.Universes Model.Join Model.JoinCheck
   Proofs.GroupProofs Proofs.JoinProofs Proofs.JoinProofsB Proofs.JoinProofsC Proofs.JoinProofsX2.
 Import ListNotations.
 Open Scope string_scope.
@@ -101,4 +101,19 @@ Proof.
   unfold qrecords, qrecords_with. destruct (closure (ju c) (deps e)); try discriminate.
   destruct (run_plan _ _ _ _ _); try discriminate. intros [= <-] r Hr. unfold recs_of_rows in Hr.
   apply filter_In in Hr. tauto.
+Qed.
+
+(* the checker's per-side evaluation of the prefilter is the model's prefilter *)
+Lemma fpre_pre o ea eb a : fpre o ea eb a = pre o ea eb a.
+Proof.
+  unfold fpre, pre. apply bool_iff. rewrite !existsb_exists. split.
+  - intros (p & Hp & Hq). apply in_map_iff in Hp. destruct Hp as ([k p'] & <- & Hk). apply filter_In in Hk. destruct Hk as [Hk Ha].
+    apply existsb_exists in Hq. destruct Hq as (q & Hq & E). apply in_map_iff in Hq. destruct Hq as ([k2 q'] & <- & Hk2).
+    apply filter_In in Hk2. destruct Hk2 as [Hk2 Hb]. simpl in *.
+    exists (k, p'). split; auto. simpl. rewrite Ha. simpl. apply existsb_exists. exists (k2, q'). split; auto. simpl. rewrite E, Hb. reflexivity.
+  - intros ([k p] & Hk & H). simpl in H. apply andb_true_iff in H. destruct H as [Ha H]. apply existsb_exists in H.
+    destruct H as ([k2 q] & Hk2 & H). simpl in H. apply andb_true_iff in H. destruct H as [E Hb].
+    exists p. split.
+    + apply in_map_iff. exists (k, p). split; auto. apply filter_In. auto.
+    + apply existsb_exists. exists q. split; auto. apply in_map_iff. exists (k2, q). split; auto. apply filter_In. auto.
 Qed.
